@@ -46,7 +46,9 @@ func decKVs(s string) []kv {
 	for _, e := range strings.Split(s, ";") {
 		k, v, _ := strings.Cut(e, "=")
 		var vals []string
-		if v != "~" {
+		if v == "~~" {
+			vals = []string{}
+		} else if v != "~" {
 			vals = decList(v)
 		}
 		out = append(out, kv{decBytes(k), vals})
@@ -155,6 +157,7 @@ func replayFile(path string, e *emitter) {
 				errorsCase(e, t, brk)
 			case "h.zero":
 				mws[f[1]] = new(cors.Middleware)
+				registerLongLived(mws[f[1]])
 				shadow[f[1]] = nil
 				e.emit(line, "ok")
 			case "h.new":
@@ -162,10 +165,12 @@ func replayFile(path string, e *emitter) {
 				m, err := cors.NewMiddleware(*c)
 				if err != nil {
 					mws[f[1]] = new(cors.Middleware)
+				registerLongLived(mws[f[1]])
 					e.emit(line, errCount(err))
 					return
 				}
 				mws[f[1]] = m
+				registerLongLived(m)
 				shadow[f[1]] = newDecider(c)
 				e.emit(line, "ok")
 			case "h.reconf":
